@@ -363,6 +363,14 @@ func Packets(thorough bool, yield func(n *wire.N)) {
 			}
 		}
 	}
+	// type/length values below 0x0600 (an IEEE 802.3 length to some stacks; to this library a type like
+	// any other without a decoder), with payloads longer and shorter than the value says
+	for _, et := range []uint64{0, 1, 38, 46, 100, 1500, 1501, 0x05ff, 0x0600, 0xffff} {
+		for _, pl := range []int{0, 46, 100} {
+			yield(Eth(nil, et, Opaque(pl)))
+			yield(Eth(Vlan(4, 0, 33), et, Opaque(pl)))
+		}
+	}
 	for _, in := range inner {
 		yield(Eth(nil, in.et, in.n.Clone()))
 		for _, v := range []*wire.N{Vlan(3, 0, 100), Vlan(0, 0, 1), Vlan(7, 1, 0xfff), Vlan(5, 0, 0), Vlan(0, 0, 0)} {
